@@ -158,6 +158,16 @@ class QModel:
             return
         self.run, self.stop, self.submit, self.spawn, self.build = (
             self.run[0], self.stop[0], self.submit[0], self.spawn[0], self.build[0])
+        # build() is analysed with its private helpers (a `start(worker, sink)` constructor, guard constructors ..) inlined;
+        # the spawn function and the worker constructor stay visible as events
+        self.build0 = self.build
+        self.worker_ctors = [x.path for x in names(cad).constructors(self.worker)]
+        self.build_region = private_region(cad, self.build0)
+        keep_ = set([self.spawn.path] + self.worker_ctors)
+        try:
+            self.build = inl(cad, self.build0, never=lambda x: x.path in keep_)
+        except Exception:
+            self.build = self.build0
         sc = self._closure_args(self.spawn, lambda t: callee_is(t, 'std::thread::spawn', 'std::thread::Builder::spawn', 'std::thread::Builder::spawn_scoped'))
         if len(sc) != 1:
             sc = cad.closures_of(self.spawn.path)
